@@ -90,6 +90,9 @@ func makeToken(op Op, t0 time.Time) (string, bool) {
 	if op.NbfS != 0 {
 		claims["nbf"] = t0.Add(time.Duration(op.NbfS) * time.Second).Unix()
 	}
+	if op.IatS != 0 {
+		claims["iat"] = t0.Add(time.Duration(op.IatS) * time.Second).Unix()
+	}
 	enc := func(alg, secret string) string {
 		_, tok, err := jwtauth.New(alg, []byte(secret), nil).Encode(claims)
 		if err != nil {
@@ -192,7 +195,7 @@ func (m *monState) checkAuthHTTP(si *StepInfo, res *OpResult, pre, post *Snap, e
 	_, timed := makeToken(op, run.t0)
 	valid := timed && tokenValidAt(op, run.t0, res.At)
 	prof := isProfilingRoute(strings.SplitN(res.Route, " ", 2)[1])
-	desc := fmt.Sprintf("step %d: %s with credential %s via %s (exp %+ds nbf %+ds, request at +%.3fs)", si.N, res.Route, op.Cred, orStr(op.Transport, "header"), op.ExpS, op.NbfS, res.At.Sub(run.t0).Seconds())
+	desc := fmt.Sprintf("step %d: %s with credential %s via %s (exp %+ds nbf %+ds iat %+ds, request at +%.3fs)", si.N, res.Route, op.Cred, orStr(op.Transport, "header"), op.ExpS, op.NbfS, op.IatS, res.At.Sub(run.t0).Seconds())
 	run.probe("http_" + map[bool]string{true: "valid", false: "invalid"}[valid])
 	run.reach("auth_table_cells", fmt.Sprintf("%s | %s | %s | profiling=%v | token valid=%v -> %d", res.Route, op.Cred, orStr(op.Transport, "header"), run.sc.Cfg.Profiling, valid, res.Status))
 	if op.PathStyle != 0 && !prof {
@@ -227,6 +230,12 @@ func (m *monState) checkAuthHTTP(si *StepInfo, res *OpResult, pre, post *Snap, e
 		} else if res.Status == http.StatusUnauthorized {
 			run.violate("C14", "r4", "%s: profiling is enabled but the route answered 401", desc)
 		}
+		return
+	}
+	if valid && op.IatS != 0 && res.At.Unix() < run.t0.Add(time.Duration(op.IatS)*time.Second).Unix() {
+		// nbf <= now < exp, but the token claims to have been issued in the future: whether that is "currently valid"
+		// the statement does not say (the library refuses it); no expectation either way
+		run.probe("http_iat_in_future_otherwise_valid")
 		return
 	}
 	if valid {
